@@ -8,9 +8,12 @@
 //                                                reference is a well-formed occurrence with that content and canonical
 //                                                ToString, every top-level well-formed occurrence is reported
 //   RefsManager::Resolve / get / OutputRefs      under a small fixed term context: ranges ordered and delimiting the recorded
-//                                                resolution; OutputRefs(Resolve(x)) parses to the same reference list
-//   ManagedText InitFrom / Str / Raw / Referals / TranslateRaw   Raw kept, Str = Resolve, Referals = entity names,
-//                                                renaming re-parses to the renamed list
+//                                                resolution, resolved text = model; OutputRefs(Resolve(x)) parses to the same
+//                                                reference list (skipped when a candidate has no documented reading)
+//   (every second text, chosen by a hash of the text:)
+//   ManagedText InitFrom / Str / Raw / Referals / TranslateRaw   Raw kept, Str = Resolve, Referals = entity names of the
+//                                                references found, renaming = gaps and unchanged references byte-identical,
+//                                                renamed references in canonical spelling
 // Global state (TextEnvironment processor, skipResolving) is reset at the top of every input.
 #include "common/fuzz.hpp"
 #include "model/reftext_glue.hpp"
@@ -46,9 +49,9 @@ void must(const glue::Failure& f) { if (f.failed()) fuzz::violation(f.oracle, f.
 std::string knownForWholeParse(const std::string& text) {
   if (text.size() <= 3) return {};
   if (fuzz::known("legacy-empty-last") && glue::legacyEmptyLastShape(text)) return "legacy-empty-last";
-  const auto f = m6::split(text.substr(2, text.size() - 3), '|');
+  const auto f = m6::split(std::string_view(text).substr(2, text.size() - 3), '|');
   if (f.size() == 2 && m6::isIntegerText(f[0])) {
-    const auto p = m6::classify("@{" + f[0] + "|}");
+    const auto p = m6::classify("@{" + std::string(f[0]) + "|}");
     if (fuzz::known("offset-beyond-int32") && p.offsetBeyondInt32) return "offset-beyond-int32";
   }
   return {};
@@ -81,7 +84,7 @@ extern "C" int LLVMFuzzerTestOneInput(const uint8_t* data, size_t size) {
   std::vector<m6::Occ> E;
   int nested = 0;
   must(glue::compareExtraction(text, sc, found, E, nested));
-  must(glue::compareParse(sc));
+  must(glue::compareParse(sc, true));
   if (nested) st.count("nested-occurrence-reported", nested);
   if (sc.unspecified) st.count("unconstrained:unspecified-candidate");
 
@@ -99,12 +102,20 @@ extern "C" int LLVMFuzzerTestOneInput(const uint8_t* data, size_t size) {
   }
   if (malformedClosed) st.label("malformed-closed");
   if (multibyteBefore) st.label("multibyte-before-ref");
-  if (!sc.top.empty()) st.nontrivial(reinterpret_cast<const uint8_t*>(text.data()), text.size(), glue::esc(text));
+  if (!sc.top.empty()) st.nontrivialLazy(reinterpret_cast<const uint8_t*>(text.data()), text.size(), [&] { return glue::esc(text); });
 
   // resolution under the fixed context
   static const glue::TermContext* ctx = new glue::TermContext(contextModel());
   RefsManager mgr(*ctx);
   const std::string resolved = mgr.Resolve(text);
+  if (found.empty()) {
+    // no reference: everything is the identity.  The remaining calls would repeat exactly the extraction already done
+    // above on the same text (ExtractAll is a pure function of the text) and then do nothing with an empty list, so
+    // the budget goes to texts with references instead.
+    if (resolved != text || !mgr.get().empty()) fuzz::violation("resolved-text", "Resolve changed a text without references: '" + glue::esc(text) + "' -> '" + glue::esc(resolved) + "'");
+    if (mgr.OutputRefs(resolved) != text) fuzz::violation("write-back", "OutputRefs changed a text without references: '" + glue::esc(text) + "'");
+    return 0;
+  }
   must(glue::checkStructure(resolved, mgr.get(), "Resolve:"));
   if (mgr.get().size() != found.size()) fuzz::violation("resolve-count", "Resolve kept " + std::to_string(mgr.get().size()) + " references, ExtractAll found " + std::to_string(found.size()));
   if (!sc.unspecified) {
@@ -117,7 +128,8 @@ extern "C" int LLVMFuzzerTestOneInput(const uint8_t* data, size_t size) {
     }
   }
   const std::string back = mgr.OutputRefs(resolved);
-  {
+  // (an undocumented candidate - e.g. a name containing a brace - may be re-spelled into something that scans differently)
+  if (!sc.unspecified) {
     const auto again = Reference::ExtractAll(back);
     if (again.size() != found.size()) fuzz::violation("write-back-reparse", "OutputRefs(Resolve(x)) = '" + glue::esc(back) + "' has " + std::to_string(again.size()) + " references, x has " + std::to_string(found.size()));
     for (size_t i = 0; i < again.size(); ++i) {
@@ -133,7 +145,10 @@ extern "C" int LLVMFuzzerTestOneInput(const uint8_t* data, size_t size) {
     (void)mgr.FirstIn(ccl::StrRange{0, first.position.finish});
   }
 
-  // managed text
+  // managed text: one more Resolve and two more extractions of the same text - done for every second text (chosen by a
+  // hash of the text, so the choice is a deterministic function of the input) to keep 150k executions within the quick tier
+  if (fuzz::fnv1a(reinterpret_cast<const uint8_t*>(text.data()), text.size()) & 1) return 0;
+  st.label("managed-text-stage");
   ManagedText mt;
   mt.InitFrom(text, *ctx);
   if (mt.Raw() != text) fuzz::violation("managed-raw", "Raw() differs from the text given to InitFrom");
@@ -160,16 +175,6 @@ extern "C" int LLVMFuzzerTestOneInput(const uint8_t* data, size_t size) {
       segs.push_back(m6::litSeg(text.substr(cur)));
       const auto d = m6::matchSegs(mt.Raw(), segs);
       if (!d.empty()) fuzz::violation("translate-raw", "TranslateRaw('" + glue::esc(text) + "') = '" + glue::esc(mt.Raw()) + "': " + d);
-    }
-    const auto again = Reference::ExtractAll(mt.Raw());
-    if (again.size() != found.size()) fuzz::violation("translate-reparse", "after TranslateRaw the text has " + std::to_string(again.size()) + " references, before " + std::to_string(found.size()));
-    for (size_t i = 0; i < again.size(); ++i) {
-      if (again[i].GetType() != found[i].GetType()) fuzz::violation("translate-reparse", "reference " + std::to_string(i) + " changed its type");
-      if (!found[i].IsEntity()) continue;
-      const std::string old(found[i].GetEntity());
-      const auto it = renames.find(old);
-      const std::string want = it != renames.end() ? it->second : old;
-      if (std::string(again[i].GetEntity()) != want) fuzz::violation("translate-reparse", "reference " + std::to_string(i) + " names '" + glue::esc(std::string(again[i].GetEntity())) + "' want '" + want + "'");
     }
   }
   return 0;
